@@ -236,14 +236,15 @@ PROPS = {
         "assumptions": ["preemption inside in-memory sections on a multi-thread runtime (DashMap shards, relaxed atomics) is not in the model"],
     },
     "C13": {
-        "thm_module": ["AkdModel.Thm.C13", "AkdModel.Thm.C16b", "AkdModel.Thm.C13b", "AkdModel.Thm.C13c"],
+        "thm_module": ["AkdModel.Thm.C13", "AkdModel.Thm.C16b", "AkdModel.Thm.C13b", "AkdModel.Thm.C13c", "AkdModel.Thm.C13d"],
         "theorems": ["Akd.C13." + t for t in ["snapshot_read", "resolve_current", "resolve_lag1", "write_preserves", "write_new",
                                               "write_frame", "lag2_witness"]]
                     + ["Akd.CacheFill." + t for t in ["coherent_reachable", "quiescent_cache_exact", "answers_recent",
                                                       "stale_fill_witness", "stale_fill_witness_fixed", "evict_in_fill_witness"]]
                     + ["Akd.Poll." + t for t in ["answers_after_signal", "signalled_is_served", "flush_excludes_requests",
                                                  "answers_not_before_start", "unguarded_witness", "unguarded_witness_blocked"]]
-                    + ["Akd.C13." + t for t in ["lagging_requests", "reads_le", "audit_le", "viewLe_publish", "ViewLe.trans",
+                    + ["Akd.C13." + t for t in ["lagging_instance", "storeOK_init", "storeOK_publish",
+                                                "lagging_requests", "reads_le", "audit_le", "viewLe_publish", "ViewLe.trans",
                                                 "legacy_lag_witness"]],
         "streams": ["l1.dir.c13", "l1.sched.read", "l1.sched.poll"],
         # recorded runs of the poller scenario are replayed on Poll.lean (PollTrace.validate): every epoch read from storage,
